@@ -13,6 +13,8 @@ import QV.Proofs.WriterBridge
 namespace QV.Writer
 open QV QV.Wire QV.Spec QV.ServerSafety
 
+variable {P : CMode → Prop}
+
 /-! ### names -/
 
 theorem specWalk_pos (msg : Bytes) : ∀ (fuel a cs : Nat) (ls : List (List UInt8)) (k : Nat),
@@ -470,5 +472,386 @@ theorem decodeRecordsM_chainC (s : State) (hw : WInv s) :
       rw [if_pos (by rw [hsz]; omega)]
       simp only [hdf, hl]
       simp
+
+
+/-! ### the whole message -/
+
+theorem layoutStable_of_lt {r : RRec} (h1 : r.ty < 65536) (h2 : r.cls < 65536) : LayoutStable r := by
+  unfold LayoutStable; rw [Nat.mod_eq_of_lt h1, Nat.mod_eq_of_lt h2]
+
+theorem layoutStable_opt (e : Option Edns) : ∀ r ∈ optRecs' e, LayoutStable r := by
+  intro r hr
+  cases e with
+  | none => cases hr
+  | some e =>
+    simp only [optRecs', List.mem_singleton] at hr
+    subst hr
+    have h41 : T_OPT = 41 := by decide +kernel
+    unfold LayoutStable Message.layoutOf
+    simp [h41]
+
+theorem layoutStable_tsig (t : Option Tsig) (mac : Option (List UInt8)) : ∀ r ∈ tsigRecs t mac, LayoutStable r := by
+  intro r hr
+  cases t with
+  | none => cases hr
+  | some t =>
+    simp only [tsigRecs, List.mem_singleton] at hr
+    subst hr
+    have h250 : T_TSIG = 250 := by decide +kernel
+    unfold LayoutStable Message.layoutOf
+    simp [h250]
+
+/-- **C12 (d) in every compression mode.** From a valid writer state whose layout holds the questions
+    and records `b` (of 16-bit types and classes): whatever `finish` returns (if at most 65535
+    octets) is read by the specification's RFC 1035 decoder as a message with the header octets of
+    the writer and — section by section, in order — the questions and records given followed by the
+    OPT and TSIG records: names (owners, QNAMEs and the names inside RDATA, decompressed) equal to
+    those given up to ASCII case, octet for octet when written outside `Standard` mode; TYPE, CLASS,
+    TTL and all other RDATA octets as given. -/
+theorem finish_refines (macFn : Tsig → List UInt8 → List UInt8) (s : State) (b : Body) (hI : I s)
+    (hL : CLay P s b) (hT : ∀ r ∈ b.an ++ b.ns ++ b.ar, LayoutStable r)
+    (m : Bytes) (mac : Option (List UInt8)) (hf : finish s macFn = .ok (m, mac)) (hsz : m.size ≤ 65535) :
+    ∃ (d : Message.Decoded) (qs : List QItC) (ian ins iar : List RItC), Message.specDecodeMsg m = some d ∧
+      d.msg.header = specHeader s.octets ∧
+      qs.map (·.q) = b.qs ∧ ian.map (·.r) = b.an ∧ ins.map (·.r) = b.ns ∧
+      iar.map (·.r) = b.ar ++ optRecs' s.edns ++ tsigRecs s.tsig mac ∧
+      All2 MQMatch qs d.msg.questions ∧ All2 MRecMatch ian d.msg.answers ∧
+      All2 MRecMatch ins d.msg.authorities ∧ All2 MRecMatch iar d.msg.additionals ∧
+      (∀ it ∈ qs, P it.m) ∧ ∀ it ∈ ian ++ ins ++ iar, P it.m := by
+  unfold finish at hf
+  cases hw : finishWithMac macFn s with
+  | mk r sF =>
+    rw [hw] at hf
+    cases r with
+    | err e => cases hf
+    | panic => cases hf
+    | ok p =>
+      obtain ⟨len, mc⟩ := p
+      simp only [Out.ok.injEq, Prod.mk.injEq] at hf
+      obtain ⟨hm, hmc⟩ := hf
+      subst hmc
+      obtain ⟨hlim, hlc, hszF⟩ := finishWithMac_len macFn s hI.inv len mc sF hw
+      have hls := hI.inv.lim_size
+      have hcF : sF.cursor ≤ sF.octets.size := by omega
+      have hmsz : m.size = sF.cursor := by rw [← hm, hlc]; exact extract_size _ _ hcF
+      have hle : sF.cursor ≤ 65535 := by omega
+      obtain ⟨wF, _, hhdr, hcnt, qs, rs, hq, hr, hqm, hrm, hqP, hrP⟩ :=
+        finishWithMac_finLayC macFn s b hI hL len mc sF hw hle
+      rw [hlc] at hm
+      subst hm
+      have hsz' := extract_size sF.octets sF.cursor hcF
+      have h12 : 12 ≤ sF.cursor := wF.c12
+      have hl2 : ∀ x, (u16be x).length = 2 := fun _ => rfl
+      obtain ⟨c123, c4⟩ := bytesAt_append hcnt
+      obtain ⟨c12, c3⟩ := bytesAt_append c123
+      obtain ⟨c1, c2⟩ := bytesAt_append c12
+      simp only [List.length_append, hl2] at c2 c3 c4
+      have e4 : be16 (sF.octets.extract 0 sF.cursor) 4 = s.qdcount := by
+        rw [be16_extract _ _ _ hcF (by omega)]; exact be16_of_bytesAt c1 (by have := hI.inv.qd; omega)
+      have e6 : be16 (sF.octets.extract 0 sF.cursor) 6 = s.ancount := by
+        rw [be16_extract _ _ _ hcF (by omega)]; exact be16_of_bytesAt c2 (by have := hI.inv.an; omega)
+      have e8 : be16 (sF.octets.extract 0 sF.cursor) 8 = s.nscount := by
+        rw [be16_extract _ _ _ hcF (by omega)]; exact be16_of_bytesAt c3 (by have := hI.inv.ns; omega)
+      have e10 : be16 (sF.octets.extract 0 sF.cursor) 10 = s.arcount := by
+        rw [be16_extract _ _ _ hcF (by omega)]; exact be16_of_bytesAt c4 (by have := hI.inv.ar; omega)
+      -- the lengths
+      have hql : qs.length = s.qdcount := by
+        have := congrArg List.length hqm; rw [List.length_map] at this; rw [this, hL.qd]
+      have hpl : (optRecs' s.edns ++ tsigRecs s.tsig mc).length = pend s := by
+        unfold pend
+        cases s.edns <;> cases s.tsig <;> simp [optRecs', tsigRecs]
+      have hrl : rs.length = s.ancount + s.nscount + s.arcount := by
+        have := congrArg List.length hrm
+        rw [List.length_map] at this
+        rw [this, hL.an, hL.ns, hL.ar]
+        simp only [List.length_append] at hpl ⊢
+        omega
+      have hrrle : s.rrStart ≤ sF.cursor := rchainC_le hr
+      -- every record has a stable layout
+      have hst : ∀ it ∈ rs, LayoutStable it.r := by
+        intro it hx
+        have hmem : it.r ∈ rs.map (·.r) := List.mem_map_of_mem hx
+        rw [hrm] at hmem
+        rcases List.mem_append.mp hmem with h1 | h1
+        · exact hT _ (List.mem_append_left _ h1)
+        · rcases List.mem_append.mp h1 with h2 | h2
+          · rcases List.mem_append.mp h2 with h3 | h3
+            · exact hT _ (List.mem_append_right _ h3)
+            · exact layoutStable_opt _ _ h3
+          · exact layoutStable_tsig _ _ _ h2
+      -- questions
+      obtain ⟨lq, a1, hdq, hmq⟩ := decodeQuestionsM_chainC sF wF qs 12 s.rrStart hq hrrle [] {}
+      rw [hql] at hdq
+      -- the sections of the given records
+      obtain ⟨ha1, ha2⟩ := map_take_eq (·.r) rs (b.an ++ b.ns) (b.ar ++ optRecs' s.edns ++ tsigRecs s.tsig mc)
+        (by rw [hrm]; try simp [List.append_assoc])
+      obtain ⟨hb1, hb2⟩ := map_take_eq (·.r) (rs.take (b.an ++ b.ns).length) b.an b.ns ha1
+      have hanl : b.an.length = s.ancount := hL.an.symm
+      have hnsl : b.ns.length = s.nscount := hL.ns.symm
+      -- the three record sections
+      obtain ⟨la, p2, a2, hda, hma, hch2⟩ := decodeRecordsM_chainC sF wF _ _ _ hr (Nat.le_refl _) hst s.ancount
+        (by omega) [] a1
+      obtain ⟨ln, p3, a3, hdn, hmn, hch3⟩ := decodeRecordsM_chainC sF wF _ _ _ hch2 (Nat.le_refl _)
+        (fun it hx => hst it (List.mem_of_mem_drop hx)) s.nscount (by rw [List.length_drop]; omega) [] a2
+      obtain ⟨lr, p4, a4, hdr, hmr, hch4⟩ := decodeRecordsM_chainC sF wF _ _ _ hch3 (Nat.le_refl _)
+        (fun it hx => hst it (List.mem_of_mem_drop (List.mem_of_mem_drop hx))) s.arcount
+        (by rw [List.length_drop, List.length_drop]; omega) [] a3
+      have hnil : (((rs.drop s.ancount).drop s.nscount).drop s.arcount) = [] := by
+        apply List.eq_nil_of_length_eq_zero
+        rw [List.length_drop, List.length_drop, List.length_drop]; omega
+      rw [hnil] at hch4
+      have hp4 : p4 = sF.cursor := hch4
+      have htk : ((rs.drop s.ancount).drop s.nscount).take s.arcount = (rs.drop s.ancount).drop s.nscount := by
+        apply List.take_of_length_le
+        rw [List.length_drop, List.length_drop]; omega
+      rw [htk] at hmr
+      simp only [List.reverse_nil, List.nil_append] at hdq hda hdn hdr
+      -- the header octets
+      have hg : ∀ i, i < 4 → (sF.octets.extract 0 sF.cursor).getD i 0 = s.octets.getD i 0 := by
+        intro i hi
+        have h1 := extract_prefix_get sF.octets sF.cursor hcF i (by omega)
+        have h2 := hhdr i hi
+        have hsi : i < s.octets.size := by have := hI.inv.hdr; have := hI.inv.cur_av; have := hI.inv.av_lim; omega
+        have hmi : i < (sF.octets.extract 0 sF.cursor).size := by rw [hsz']; omega
+        rw [h2] at h1
+        simp only [Array.getD, hsi, hmi, dite_true]
+        rw [Array.getElem?_eq_getElem hmi, Array.getElem?_eq_getElem hsi] at h1
+        exact Option.some.inj h1
+      have hh : specHeader (sF.octets.extract 0 sF.cursor) = specHeader s.octets := by
+        simp only [specHeader, be16, hg 0 (by omega), hg 1 (by omega), hg 2 (by omega), hg 3 (by omega)]
+      refine ⟨⟨⟨specHeader (sF.octets.extract 0 sF.cursor), lq, la, ln, lr⟩, a4.extents.reverse, a4.names.reverse⟩,
+        qs, rs.take s.ancount, (rs.drop s.ancount).take s.nscount, (rs.drop s.ancount).drop s.nscount, ?_, hh, hqm,
+        ?_, ?_, ?_, hmq, hma, hmn, hmr, hqP, fun it hx => by
+          rcases List.mem_append.mp hx with hx | hx
+          · rcases List.mem_append.mp hx with hx | hx
+            · exact hrP it (List.mem_of_mem_take hx)
+            · exact hrP it (List.mem_of_mem_drop (List.mem_of_mem_take hx))
+          · exact hrP it (List.mem_of_mem_drop (List.mem_of_mem_drop hx))⟩
+      · unfold Message.specDecodeMsg
+        rw [if_neg (by rw [hsz']; omega)]
+        simp only [e4, e6, e8, e10, hdq, hda, hdn, hdr]
+        rw [if_pos (by rw [hp4, hsz'])]
+        simp [specHeader]
+      · -- answers
+        have : (rs.take (b.an ++ b.ns).length).take b.an.length = rs.take s.ancount := by
+          rw [List.take_take, List.length_append, hanl]; congr 1; omega
+        rw [← this]; exact hb1
+      · -- authorities
+        have : (rs.take (b.an ++ b.ns).length).drop b.an.length = (rs.drop s.ancount).take s.nscount := by
+          rw [List.drop_take, List.length_append, hanl, hnsl]; congr 1; omega
+        rw [← this]; exact hb2
+      · -- additionals
+        have : rs.drop (b.an ++ b.ns).length = (rs.drop s.ancount).drop s.nscount := by
+          rw [List.drop_drop, List.length_append, hanl, hnsl]
+        rw [← this]; exact ha2
+
+
+/-! ### stated on the questions and records given -/
+
+/-- a decoded question is the question given (`ex`: names octet for octet) -/
+def QuestionIs (ex : Prop) (q : QRec) (dq : Message.Question) : Prop :=
+  dq.qname.map lowerU8 = q.qname.wire.map lowerU8 ∧ (ex → dq.qname = q.qname.wire) ∧
+  dq.qtype = q.qtype % 65536 ∧ dq.qclass = q.qclass % 65536
+
+/-- a decoded record is the record given: owner and the names inside RDATA (decompressed) equal to
+    those given up to ASCII case — octet for octet if `ex` —, TYPE, CLASS, TTL and all other RDATA
+    octets as given (`givenRdata`: the specification's reading of the RDATA octets given) -/
+def RecordIs (ex : Prop) (r : RRec) (dr : Message.Record) : Prop :=
+  dr.owner.map lowerU8 = r.owner.wire.map lowerU8 ∧ (ex → dr.owner = r.owner.wire) ∧
+  dr.type = r.ty % 65536 ∧ dr.cls = r.cls % 65536 ∧ dr.ttl = r.ttl % 4294967296 ∧
+  ∃ gf, Message.givenRdata r.ty r.cls r.rdata = some gf ∧ All2 (FieldMatch ex) gf dr.rdata
+
+theorem fieldMatch_mono {e1 e2 : Prop} (h : e2 → e1) {a b : Message.Field} (hm : FieldMatch e1 a b) :
+    FieldMatch e2 a b := by
+  cases hm with
+  | name h1 h2 => exact .name h1 (fun x => h2 (h x))
+  | bytes x => exact .bytes x
+
+theorem all2_mono {α β : Type} {R S : α → β → Prop} (h : ∀ a b, R a b → S a b) {as : List α} {bs : List β}
+    (hm : All2 R as bs) : All2 S as bs := by
+  induction hm with
+  | nil => exact .nil
+  | cons hr _ ih => exact .cons (h _ _ hr) ih
+
+theorem all2_map_left {α β γ : Type} {R : γ → β → Prop} (f : α → γ) {S : α → β → Prop} :
+    ∀ {as : List α} {bs : List β}, All2 S as bs → (∀ a ∈ as, ∀ b, S a b → R (f a) b) → All2 R (as.map f) bs := by
+  intro as bs hm
+  induction hm with
+  | nil => intro _; exact .nil
+  | cons hr _ ih =>
+    intro h
+    exact .cons (h _ List.mem_cons_self _ hr) (ih (fun a ha b hs => h a (List.mem_cons_of_mem _ ha) b hs))
+
+theorem records_of_items {ex : Prop} {its : List RItC} {drs : List Message.Record} (h : All2 MRecMatch its drs)
+    (hP : ∀ it ∈ its, ex → it.m ≠ .standard) : All2 (RecordIs ex) (its.map (·.r)) drs :=
+  all2_map_left (·.r) h (fun it hit _ ⟨h1, h2, h3, h4, h5, gf, h6, h7⟩ =>
+    ⟨h1, fun x => h2 (hP it hit x), h3, h4, h5, gf, h6, all2_mono (fun _ _ hf => fieldMatch_mono (hP it hit) hf) h7⟩)
+
+theorem questions_of_items {ex : Prop} {its : List QItC} {dqs : List Message.Question} (h : All2 MQMatch its dqs)
+    (hP : ∀ it ∈ its, ex → it.m ≠ .standard) : All2 (QuestionIs ex) (its.map (·.q)) dqs :=
+  all2_map_left (·.q) h (fun it hit _ ⟨h1, h2, h3, h4⟩ => ⟨h1, fun x => h2 (hP it hit x), h3, h4⟩)
+
+/-- **C12 (d), every compression mode, for all sequences of calls.** From a fresh writer put into any
+    mode, after any sequence of public calls (16-bit types and classes; hint contract respected) with
+    any mode changes: `finish` succeeds and its message (if at most 65535 octets), read by the
+    specification's RFC 1035 decoder, has the header octets of the writer and, section by section and
+    in order, exactly the questions and records of the calls that succeeded (`bodyRun`: `clear_rrs`
+    removes the records, a failed call adds nothing), then the OPT and TSIG records — names up to
+    ASCII case, and octet for octet (`ex`) if neither the initial mode nor any mode set is `Standard`. -/
+theorem refines_all_modes (macFn : Tsig → List UInt8 → List UInt8) (hmac : MacLenOK macFn)
+    (buf : Bytes) (limit : Nat) (s0 : State) (hnew : Writer.new buf limit = .ok s0) (mode : CMode)
+    (ops : List Op) (ht : ∀ op ∈ ops, op.Typed) (hr : Respects { w := { s0 with mode := mode } } ops)
+    (ex : Prop) (hex : ex → mode ≠ .standard ∧ ∀ m, Op.setMode m ∈ ops → m ≠ .standard) :
+    ∃ m mac, finish (run { w := { s0 with mode := mode } } ops).1.w macFn = .ok (m, mac) ∧ (m.size ≤ 65535 →
+      ∃ d : Message.Decoded, Message.specDecodeMsg m = some d ∧
+        d.msg.header = specHeader (run { w := { s0 with mode := mode } } ops).1.w.octets ∧
+        All2 (QuestionIs ex) (bodyRun {} ops (run { w := { s0 with mode := mode } } ops).2).qs d.msg.questions ∧
+        All2 (RecordIs ex) (bodyRun {} ops (run { w := { s0 with mode := mode } } ops).2).an d.msg.answers ∧
+        All2 (RecordIs ex) (bodyRun {} ops (run { w := { s0 with mode := mode } } ops).2).ns d.msg.authorities ∧
+        All2 (RecordIs ex) ((bodyRun {} ops (run { w := { s0 with mode := mode } } ops).2).ar ++
+          optRecs' (run { w := { s0 with mode := mode } } ops).1.w.edns ++
+          tsigRecs (run { w := { s0 with mode := mode } } ops).1.w.tsig mac) d.msg.additionals) := by
+  have hI0 : I { s0 with mode := mode } := (safe_setMode mode s0 (new_i buf limit s0 hnew)).2
+  have hL0 : CLay (fun m => ex → m ≠ .standard) { s0 with mode := mode } {} :=
+    clay_new buf limit s0 hnew mode (fun x => (hex x).1)
+  have hI := (run_I { w := { s0 with mode := mode } } ops hI0 hr).2
+  have hL := clay_run { w := { s0 with mode := mode } } ops {} hI0 hL0 hr (fun m hm x => (hex x).2 m hm)
+  have hT := typed_run ops { w := { s0 with mode := mode } } {}
+    ⟨(fun _ h => by cases h), (fun _ h => by cases h), (fun _ h => by cases h), (fun _ h => by cases h)⟩ ht
+  generalize (run { w := { s0 with mode := mode } } ops).1.w = sF at hI hL ⊢
+  generalize bodyRun {} ops (run { w := { s0 with mode := mode } } ops).2 = B at hL hT ⊢
+  obtain ⟨m, mac, hf⟩ := finish_ok macFn hmac sF hI
+  refine ⟨m, mac, hf, fun hsz => ?_⟩
+  have hst : ∀ r ∈ B.an ++ B.ns ++ B.ar, LayoutStable r := by
+    intro r hx
+    have hr : r.Typed := by
+      rcases List.mem_append.mp hx with h1 | h1
+      · rcases List.mem_append.mp h1 with h2 | h2
+        · exact hT.an r h2
+        · exact hT.ns r h2
+      · exact hT.ar r h1
+    exact layoutStable_of_lt hr.2.1 hr.2.2.1
+  obtain ⟨d, qs, ian, ins, iar, hd, hh, hq, han, hns, har, mq, ma, mn, mr, pq, pr⟩ :=
+    finish_refines macFn sF B hI hL hst m mac hf hsz
+  refine ⟨d, hd, hh, ?_, ?_, ?_, ?_⟩
+  · rw [← hq]; exact questions_of_items mq pq
+  · rw [← han]; exact records_of_items ma (fun it hx => pr it (List.mem_append_left _ (List.mem_append_left _ hx)))
+  · rw [← hns]; exact records_of_items mn (fun it hx => pr it (List.mem_append_left _ (List.mem_append_right _ hx)))
+  · rw [← har]; exact records_of_items mr (fun it hx => pr it (List.mem_append_right _ hx))
+
+
+/-! ### sessions that never use `Standard` mode: the decoded message is exactly the message given -/
+
+theorem fields_exact : ∀ {gf df : List Message.Field}, All2 (FieldMatch True) gf df → gf = df := by
+  intro gf df h
+  induction h with
+  | nil => rfl
+  | cons hh _ ih =>
+    cases hh with
+    | name h1 h2 => rw [h2 trivial, ih]
+    | bytes x => rw [ih]
+
+/-- what a record given means, TYPE/CLASS/TTL as 16/16/32-bit values -/
+def normR (r : RRec) : Message.Record :=
+  ⟨r.owner.wire, r.ty % 65536, r.cls % 65536, r.ttl % 4294967296, (Message.givenRdata r.ty r.cls r.rdata).getD []⟩
+
+theorem recordIs_exact {r : RRec} {dr : Message.Record} (h : RecordIs True r dr) : dr = normR r := by
+  obtain ⟨_, h2, h3, h4, h5, gf, h6, h7⟩ := h
+  have := fields_exact h7
+  cases dr with
+  | mk o t c l f =>
+    simp only at h2 h3 h4 h5 this
+    simp only [normR, h6, Option.getD_some, h2 trivial, h3, h4, h5, this]
+
+theorem all2_eq_map {α β : Type} {R : α → β → Prop} (f : α → β) (h : ∀ a b, R a b → b = f a) :
+    ∀ {as : List α} {bs : List β}, All2 R as bs → bs = as.map f := by
+  intro as bs hm
+  induction hm with
+  | nil => rfl
+  | cons hr _ ih => rw [List.map_cons, ← ih, h _ _ hr]
+
+theorem normR_typed {r : RRec} (h1 : r.ty < 65536) (h2 : r.cls < 65536) (h3 : r.ttl < 4294967296) :
+    normR r = specR r := by
+  simp only [normR, specR, Nat.mod_eq_of_lt h1, Nat.mod_eq_of_lt h2, Nat.mod_eq_of_lt h3]
+
+theorem normR_opt (e : Option Edns) : (optRecs' e).map normR = (optRecs e).map specR := by
+  cases e with
+  | none => rfl
+  | some e =>
+    have h41 : T_OPT = 41 := by decide +kernel
+    simp only [optRecs', optRecs, List.map_cons, List.map_nil, normR, specR, h41]
+    have hg : ∀ c, Message.givenRdata 41 c [] = Message.givenRdata 41 (c % 65536) [] := by
+      intro c; simp [Message.givenRdata, Message.layoutOf]
+    rw [hg e.payload]
+    simp
+
+theorem normR_tsig (t : Option Tsig) (mac : Option (List UInt8)) :
+    (tsigRecs t mac).map normR = (tsigRecs t mac).map specR := by
+  cases t with
+  | none => rfl
+  | some t =>
+    have h250 : T_TSIG = 250 := by decide +kernel
+    have h255 : QC_ANY = 255 := by decide +kernel
+    simp only [tsigRecs, List.map_cons, List.map_nil]
+    rw [normR_typed (by simp [h250]) (by simp [h255]) (ttlFrom_lt 0)]
+
+/-- **C12 (d) for sessions that never use `Standard` mode** (`CasePreserving`, `Disabled`, or any mix):
+    the specification's decoder reads the finished message as *exactly* the abstract message of the
+    calls that succeeded — the same statement as in `Disabled` mode (`disabled_refines`), now with
+    compression -/
+theorem refines_exact (macFn : Tsig → List UInt8 → List UInt8) (hmac : MacLenOK macFn)
+    (buf : Bytes) (limit : Nat) (s0 : State) (hnew : Writer.new buf limit = .ok s0) (mode : CMode)
+    (ops : List Op) (ht : ∀ op ∈ ops, op.Typed) (hr : Respects { w := { s0 with mode := mode } } ops)
+    (hm0 : mode ≠ .standard) (hms : ∀ m, Op.setMode m ∈ ops → m ≠ .standard) :
+    ∃ m mac, finish (run { w := { s0 with mode := mode } } ops).1.w macFn = .ok (m, mac) ∧ (m.size ≤ 65535 →
+      ∃ d : Message.Decoded, Message.specDecodeMsg m = some d ∧
+        d.msg = ⟨specHeader (run { w := { s0 with mode := mode } } ops).1.w.octets,
+          (bodyRun {} ops (run { w := { s0 with mode := mode } } ops).2).qs.map specQ,
+          (bodyRun {} ops (run { w := { s0 with mode := mode } } ops).2).an.map specR,
+          (bodyRun {} ops (run { w := { s0 with mode := mode } } ops).2).ns.map specR,
+          ((bodyRun {} ops (run { w := { s0 with mode := mode } } ops).2).ar ++
+            optRecs (run { w := { s0 with mode := mode } } ops).1.w.edns ++
+            tsigRecs (run { w := { s0 with mode := mode } } ops).1.w.tsig mac).map specR⟩) := by
+  obtain ⟨m, mac, hf, hrest⟩ := refines_all_modes macFn hmac buf limit s0 hnew mode ops ht hr True
+    (fun _ => ⟨hm0, hms⟩)
+  have hT := typed_run ops { w := { s0 with mode := mode } } {}
+    ⟨(fun _ h => by cases h), (fun _ h => by cases h), (fun _ h => by cases h), (fun _ h => by cases h)⟩ ht
+  refine ⟨m, mac, hf, fun hsz => ?_⟩
+  obtain ⟨d, hd, hh, mq, ma, mn, mr⟩ := hrest hsz
+  generalize (run { w := { s0 with mode := mode } } ops).1.w = sF at *
+  generalize bodyRun {} ops (run { w := { s0 with mode := mode } } ops).2 = B at *
+  refine ⟨d, hd, ?_⟩
+  have eq : d.msg.questions = B.qs.map specQ := by
+    have := all2_eq_map (R := QuestionIs True) (fun q => (⟨q.qname.wire, q.qtype % 65536, q.qclass % 65536⟩ : Message.Question))
+      (fun q dq ⟨_, h2, h3, h4⟩ => by cases dq; simp only at h2 h3 h4; rw [h2 trivial, h3, h4]) mq
+    rw [this]
+    apply List.map_congr_left
+    intro q hq
+    obtain ⟨_, h1, h2⟩ := hT.qs q hq
+    simp only [specQ, Nat.mod_eq_of_lt h1, Nat.mod_eq_of_lt h2]
+  have hsec : ∀ (l : List RRec) (dl : List Message.Record), (∀ r ∈ l, r.Typed) → All2 (RecordIs True) l dl →
+      dl = l.map specR := by
+    intro l dl hty h
+    rw [all2_eq_map normR (fun _ _ hx => recordIs_exact hx) h]
+    apply List.map_congr_left
+    intro r hr
+    obtain ⟨_, h1, h2, h3, _⟩ := hty r hr
+    exact normR_typed h1 h2 h3
+  have ean := hsec _ _ hT.an ma
+  have ens := hsec _ _ hT.ns mn
+  have ear : d.msg.additionals = (B.ar ++ optRecs sF.edns ++ tsigRecs sF.tsig mac).map specR := by
+    rw [all2_eq_map normR (fun _ _ hx => recordIs_exact hx) mr]
+    simp only [List.map_append]
+    rw [normR_opt, normR_tsig]
+    congr 2
+    apply List.map_congr_left
+    intro r hr
+    obtain ⟨_, h1, h2, h3, _⟩ := hT.ar r hr
+    exact normR_typed h1 h2 h3
+  cases hdm : d.msg with
+  | mk h q a n r =>
+    rw [hdm] at hh eq ean ens ear
+    simp only at hh eq ean ens ear
+    rw [hh, eq, ean, ens, ear]
 
 end QV.Writer
